@@ -190,6 +190,7 @@ def run_shard(sh):
     if sh['part'] == 'A':
         sp_ = space(sh['tier'], sh['seed'])
         tabs = list(qcheck.tables_upto(sp_['rows'], sp_['maxrows']))
+        tabs.append(qcheck.long_table(sp_['rows'], 2))      # beyond the exhaustive bound: every ordered pair of rows as neighbours, 17 records
         jscases = []
         for qi, q in enumerate(sp_['qs'][sh['lo']:sh['hi']]):
             text = refql.render(q)
